@@ -153,6 +153,19 @@ def run(tier: str, seed: int, t0: float) -> int:
     stats.bounds["docs_exhaustive"] = len(docs)
     stats.exhaustive = True
     jobs.append((b, "G+T resolve[s1t]"))
+    # ---- G+T: several coexisting non-inclusive marks ending at the same position
+    def mk(*names):
+        return tuple({"t": n, "a": "{}"} for n in names)
+    gbm = universe.bounds(4 if not thorough else 5, max_depth=2, max_run=1, chars=(97,),
+                          marksets=((), mk("n1"), mk("n1", "n2"), mk("n1", "em", "n2"), mk("n2", "n3"), mk("n1", "n2", "n3"), mk("em")))
+    schm, jsm, mdocs = universe.tlc_docs("s1m", gbm, stats)
+    bm = trace.Batch(jsm)
+    marks_m = [schm.marks[n].create() for n in ("n1", "n2")]
+    selm = mdocs if thorough or len(mdocs) <= 400 else rng.sample(mdocs, 400)
+    for d in selm:
+        doc_events(bm, schm, proj.unproj(schm, d), d, rng, 30, marks_m, ["", "p"])
+    stats.bounds["docs_noninclusive_marks"] = len(selm)
+    jobs.append((bm, "G+T resolve[s1m]"))
     # ---- T random
     for name in schemas.BUNDLED_PLUS + ["s1", "s3"]:
         sch2, js2, prs = universe.random_docs(name, 12 if not thorough else 120, rng)
